@@ -27,11 +27,11 @@ PROPS["C20"] = dict(
         SC_NOTE,
     ],
     runs=[
-        run("sv", "c20_rc", "sv_ops", "rc", dict(procs=3, cases=30000), dict(procs=4, cases=300000)),
+        run("sv", "c20_rc", "sv_ops", "rc", dict(procs=3, cases=30000), dict(procs=3, cases=300000)),
         run("span", "c20_rc", "span_ops", "rc", dict(procs=2, cases=20000), dict(procs=2, cases=200000)),
-        run("uptr", "c20_rc", "uptr_ops", "rc", dict(procs=2, cases=25000), dict(procs=2, cases=250000)),
-        run("sptr", "c20_rc", "sptr_ops", "rc", dict(procs=4, cases=20000), dict(procs=4, cases=250000)),
+        run("uptr", "c20_rc", "uptr_ops", "rc", dict(procs=2, cases=25000), dict(procs=2, cases=200000)),
+        run("sptr", "c20_rc", "sptr_ops", "rc", dict(procs=4, cases=20000), dict(procs=4, cases=200000)),
         run("fref", "c20_rc", "fref_ops", "rc", dict(procs=1, cases=15000), dict(procs=1, cases=150000)),
-        run("variant", "c20_rc", "var_ops", "rc", dict(procs=4, cases=20000), dict(procs=3, cases=250000)),
+        run("variant", "c20_rc", "var_ops", "rc", dict(procs=4, cases=20000), dict(procs=4, cases=100000)),
     ],
 )
